@@ -16,11 +16,12 @@ fi; echo "== seeded changes"
 for d in seeded/*/; do
   id=$(basename $d); prop=${id%%-*}
   if ! echo " $claimed " | grep -q " $prop "; then echo "$id: property $prop not claimed — skipped"; continue; fi
-  git -C /repo apply /verif/${d}patch.diff || { echo "$id: patch does not apply"; fail=1; continue; }
+  git -C /repo apply /verif/${d}patch.diff || { echo "$id: patch does not apply"; echo "  MISSED: $id (patch does not apply to the current tree)"; fail=1; continue; }
   out=$(./check $prop --no-evidence 2>&1); code=$?
   git -C /repo checkout -- . 
   v=$(echo "$out" | grep "^VIOLATION" | head -2 | sed 's/.*replay=.verif.replays.//' | tr '\n' ' ')
   echo "$id exit=$code $v"
   [ $code -ne 1 ] && { echo "  MISSED: $id"; fail=1; }
 done
+echo "SELFTEST fail=$fail"
 exit $fail
